@@ -52,7 +52,7 @@ AlphaTiny ==
     P("construct", "reserr", 0, 0, 0, "js", "none", "notcallable"),
     P("jobs", "throw", 1, 0, 0, "js", "none", "none"),
     P("gen", "limit", 1, 0, 0, "js", "rec", "none"),
-    P("evalasync", "throw", 3, 2, 3, "map", "none", "none") }
+    P("module", "throw", 3, 2, 3, "map", "none", "none") }
 
 GenIdsMC == 1..MaxLen
 =============================================================================
